@@ -124,7 +124,7 @@ impl<'a> Enum<'a> {
         }
         let mut total = 0u64;
         for ai in 0..self.g.rules[r].alts.len() {
-            total = (total + self.count_seq(r, ai, 0, i, j)).min(CAP);
+            total = total.saturating_add(self.count_seq(r, ai, 0, i, j)).min(CAP);
         }
         self.cnt.insert((r, i, j), total);
         total
@@ -148,7 +148,7 @@ impl<'a> Enum<'a> {
                 let mut total = 0u64;
                 let edges: Vec<Edge> = self.lat.edges[i].iter().filter(|e| e.term == t && e.to <= j).cloned().collect();
                 for e in edges {
-                    total = (total + self.count_seq(r, ai, p + 1, e.to, j)).min(CAP);
+                    total = total.saturating_add(self.count_seq(r, ai, p + 1, e.to, j)).min(CAP);
                 }
                 total
             }
@@ -162,7 +162,7 @@ impl<'a> Enum<'a> {
                     let rest = self.count_seq(r, ai, p + 1, k, j);
                     if rest > 0 {
                         let c = self.count(n, i, k);
-                        total = (total + c.saturating_mul(rest)).min(CAP);
+                        total = total.saturating_add(c.saturating_mul(rest)).min(CAP);
                     }
                 }
                 total
